@@ -56,18 +56,23 @@ func (s *storeRun) afterMutation(op Op, prev *specDoc) {
 		return
 	}
 	// tie: the model's crash images are the implementation's
-	m := s.drv.Send("images")
-	var parts []string
-	for i, img := range s.images {
-		parts = append(parts, fmt.Sprintf("%s:%d:%d", s.imgTags[i], len(img), fnv1a(img)))
-	}
-	want := "img -"
-	if len(parts) > 0 {
-		want = "img " + strings.Join(parts, ";")
-	}
-	if m != want {
-		s.tie("crash images of "+op.K, m, want)
-		return
+	// (once model and implementation have diverged the images go through the direct oracles alone: old-or-new,
+	// others intact, well-formed chain, continuation — that is the search for a concrete failing input)
+	useModel := !s.modelDead
+	if useModel {
+		m := s.drv.Send("images")
+		var parts []string
+		for i, img := range s.images {
+			parts = append(parts, fmt.Sprintf("%s:%d:%d", s.imgTags[i], len(img), fnv1a(img)))
+		}
+		want := "img -"
+		if len(parts) > 0 {
+			want = "img " + strings.Join(parts, ";")
+		}
+		if m != want {
+			s.tie("crash images of "+op.K, m, want)
+			useModel = false
+		}
 	}
 	now := s.spec[op.ID] // nil when removed
 	for k, img := range s.images {
@@ -82,25 +87,28 @@ func (s *storeRun) afterMutation(op Op, prev *specDoc) {
 		}
 		rc := &RealColl{Path: path}
 		r := rc.New(1, 0, 0, 0)
-		m1 := c.drv2.Send("disk " + hexW(img))
-		m2 := c.drv2.SendNew(1, 0, 0, 0, path)
-		if m1 != "ok" || strings.Fields(m2)[0] != r {
-			s.tie("recovery ("+where+")", m2, r)
-			os.Remove(path)
-			return
+		modelOK := useModel
+		if modelOK {
+			m1 := c.drv2.Send("disk " + hexW(img))
+			m2 := c.drv2.SendNew(1, 0, 0, 0, path)
+			if m1 != "ok" || strings.Fields(m2)[0] != r {
+				s.tie("recovery ("+where+")", m2, r)
+				modelOK, useModel = false, false
+			}
 		}
 		if r != "ok" {
 			s.fail("C07", "recovery-failed", where+": reopening the file failed ("+r+")")
 			os.Remove(path)
 			continue
 		}
-		modelOK := true
-		if ms, rs := c.drv2.Send("st"), rc.St(); ms != rs {
-			// the tie is broken here; keep going on the implementation alone to look for a failing input
-			s.tie("recovered state ("+where+")", ms, rs)
-			modelOK = false
-		} else {
-			s.res.TracesValidated++
+		if modelOK {
+			if ms, rs := c.drv2.Send("st"), rc.St(); ms != rs {
+				// the tie is broken here; keep going on the implementation alone to look for a failing input
+				s.tie("recovered state ("+where+")", ms, rs)
+				modelOK = false
+			} else {
+				s.res.TracesValidated++
+			}
 		}
 		// others intact, affected old-or-new
 		_, ids := rc.IDs()
@@ -148,29 +156,38 @@ func (s *storeRun) afterMutation(op Op, prev *specDoc) {
 		bigID := uint64(1<<40) + uint64(c.n)
 		vec := make([]float64, rc.Opt.DimensionCount)
 		bigMeta := genMeta(int64(c.n), 5000)
-		cm := c.drv2.Send(fmt.Sprintf("add %d %s %s", bigID, codesStr(rc.Codes(vec)), hexW(bigMeta)))
-		cr := rc.Add(bigID, vec, bigMeta)
-		if modelOK && cm != cr {
-			s.tie("continuation add ("+where+")", cm, cr)
+		cm, cr := "", rc.Add(bigID, vec, bigMeta)
+		if modelOK {
+			if cm = c.drv2.Send(fmt.Sprintf("add %d %s %s", bigID, codesStr(rc.Codes(vec)), hexW(bigMeta))); cm != cr {
+				s.tie("continuation add ("+where+")", cm, cr)
+				modelOK = false
+			}
 		}
 		removed := false
 		if d != nil {
-			cm = c.drv2.Send(fmt.Sprintf("del %d", op.ID))
 			cr = rc.Del(op.ID)
-			if modelOK && cm != cr {
-				s.tie("continuation remove ("+where+")", cm, cr)
+			if modelOK {
+				if cm = c.drv2.Send(fmt.Sprintf("del %d", op.ID)); cm != cr {
+					s.tie("continuation remove ("+where+")", cm, cr)
+					modelOK = false
+				}
 			}
 			removed = cr == "ok"
 		}
-		c.drv2.Send("close")
 		rc.Close()
 		r = rc.New(1, 0, 0, 0)
-		m2 = c.drv2.SendNew(1, 0, 0, 0, path)
+		m2 := ""
+		if modelOK {
+			c.drv2.Send("close")
+			m2 = c.drv2.SendNew(1, 0, 0, 0, path)
+		}
 		if modelOK && strings.Fields(m2)[0] != r {
 			s.tie("second reopen ("+where+")", m2, r)
 		} else if r == "ok" {
-			if ms, rs := c.drv2.Send("st"), rc.St(); modelOK && ms != rs {
-				s.tie("state after continuation and reopen ("+where+")", ms, rs)
+			if modelOK {
+				if ms, rs := c.drv2.Send("st"), rc.St(); ms != rs {
+					s.tie("state after continuation and reopen ("+where+")", ms, rs)
+				}
 			}
 			if _, d2 := rc.Get(bigID); d2 == nil || !bytes.Equal(d2.Metadata, bigMeta) {
 				s.fail("C07", "record-lost-after-recovery", fmt.Sprintf("%s: a document written after recovery is gone after the next reopen", where))
